@@ -65,6 +65,7 @@ void for_values(Tally& t, F&& f)
 template<class T, class CF, class RF, class DF>
 void unary(char const* desc, CF cnl_fn, RF ref_fn, DF in_domain)
 {
+    if (!kernel_selected(desc)) return;
     Tally t(desc);
     for_values<T>(t, [&](T x, bool distinct) {
         if (t.closed) { ++t.notrun; return; }
@@ -86,6 +87,7 @@ void unary(char const* desc, CF cnl_fn, RF ref_fn, DF in_domain)
 template<class U>
 void rotations(char const* desc, bool left)
 {
+    if (!kernel_selected(desc)) return;
     Tally t(desc);
     constexpr unsigned w = width_of<U>;
     std::vector<U> xs = lattice<U>();
